@@ -1,4 +1,5 @@
 \* generated by the harness (quick tier constants); the checks generate their configs themselves
+\* must-fail sensitivity variant: the former defect of read_WCC_WT_format (split at n div 2, repaired in 849f3dda)
 SPECIFICATION Spec
 CONSTANTS
   WccSplitCeil = FALSE
